@@ -674,7 +674,9 @@ def _check_cg_micro(ctx, prog, c_rsp):
     ctx.touch(f)
     r, m = 2, 2
     for steps in (1,):
-        it, d = new_interp(ctx, chooser=lambda interp, node, cond: False)
+        # order comparisons (tolerance / breakdown tests) are answered "no"; zero tests of data get their generic outcome
+        it, d = new_interp(ctx, chooser=lambda interp, node, cond: (
+            False if (cond_parts(cond) is not None and cond_parts(cond)[0] in ("lt", "le", "gt", "ge")) else None))
         G = sym_quat("g", (r, r))
         B = sym_quat("b", (r, m))
         inst = Instance(c_rsp, dict(block_size=2, max_iter=1, tol=TOL, test_sketch_size=2, verbose=False, seed=None,
@@ -706,6 +708,8 @@ def _check_cg_micro(ctx, prog, c_rsp):
             p = list(b)
             rsold = rinner(rv, rv)
             for _ in range(steps):
+                if rsold.is_zero():
+                    break                      # zero right-hand side (specialised scenario): CG from x = 0 stays at 0
                 Ap = [sum((Gs[i, k] * p[k] for k in range(r)), SQ()) for i in range(r)]
                 pAp = rinner(p, Ap)
                 alpha = rsold / pAp
